@@ -5,7 +5,7 @@
    are universally quantified oracles: "some step fails" is proved up to what the primitives guarantee, i.e. every
    accepted alteration is shown to need an equal hash of different encodings or an accepting signature oracle.
    ExtendVoucher is exercised on the implementation only (correspondence monitors), not modelled. *)
-From FDO Require Import Cbor.Typed Cose.Sign1 Fdo.Voucher Fdo.VoucherFacts Gen.Types.
+From FDO Require Import Cbor.Typed Cose.Sign1 Fdo.Voucher Fdo.VoucherFacts Fdo.Extend Fdo.ExtendFacts Gen.Types.
 
 (* the layouts the model decodes with are the ones the compiled package reports *)
 Theorem C04_layout : ty_voucher = ty_fdo_Voucher /\ ty_entry = ty_fdo_VoucherEntry /\ ty_header = ty_fdo_VoucherHeader.
@@ -56,3 +56,36 @@ Theorem C04_no_panic : forall O_der O_rfc O_verify O_hash O_pubkey hdr hm l p,
   verify_entries O_der O_rfc O_verify O_hash O_pubkey hdr hm l <> Panic p.
 Proof. exact verify_entries_no_panic. Qed.
 Print Assumptions C04_no_panic.
+
+(* only the current owner can extend: ExtendVoucher's guard (model: extend_guard; compared with the library on every
+   signer role x next key x chain length, kind voucher.extendcase) passes only for a signer whose key IS the key the
+   voucher currently ends in, and only among keys of one kind and size *)
+Theorem C04_extend_only_owner : forall O_pubkey mfg signer next signer_key hdr es,
+  extend_guard O_pubkey mfg signer next signer_key hdr es = true ->
+  owner_key O_pubkey hdr es = Ok signer_key /\ mfg = signer /\ signer = next /\ signer <> KOtherKey.
+Proof. exact extend_guard_owner. Qed.
+Print Assumptions C04_extend_only_owner.
+
+(* "verify iff untampered", the other direction for extension: a voucher whose entries verify, extended by an entry
+   whose payload is the one ExtendVoucher builds and whose signature verifies under the current owner key, verifies
+   again, for chains of any length (the first extension, by the manufacturer, included) *)
+Theorem C04_extension_verifies : forall O_der O_rfc O_verify O_hash O_pubkey hdr hm es alg extra next_pk pl prot unprot sig k,
+  verify_entries O_der O_rfc O_verify O_hash O_pubkey hdr hm es = Ok tt ->
+  owner_key O_pubkey hdr es = Ok k ->
+  match es with
+  | [] => True
+  | e0 :: _ => exists pl0 pv hh pk, e_payload e0 = Some pl0 /\ payload_fields pl0 = Some (alg, pv, hh, pk)
+  end ->
+  extend_payload O_hash alg hdr hm es extra next_pk = Ok pl ->
+  sign1_verify O_der O_rfc O_verify ty_entry_payload TBytes k prot (Some pl) None sig (VBytes []) = Ok true ->
+  verify_entries O_der O_rfc O_verify O_hash O_pubkey hdr hm (extend_with es prot unprot pl sig) = Ok tt.
+Proof. exact extend_verifies. Qed.
+Print Assumptions C04_extension_verifies.
+
+(* and its owner is the key named in the new entry *)
+Theorem C04_extension_owner : forall O_pubkey hdr es prot unprot sig alg ph ih extra next_pk,
+  owner_key O_pubkey hdr
+    (extend_with es prot unprot (VList [VList [VInt alg; VBytes ph]; VList [VInt alg; VBytes ih]; extra; next_pk]) sig) =
+  match O_pubkey next_pk with Some nk => Ok nk | None => Err EOther end.
+Proof. exact extend_owner. Qed.
+Print Assumptions C04_extension_owner.
